@@ -8,6 +8,12 @@ TRUST = "rustc's type checker, MIR construction and trait resolution (facts are 
 
 # id -> (level, technique, text, design_ref) ; None => not yet claimed
 CLAIMS = {
+    "C01": (
+        "other",
+        "def-use classification of every schedule-dependent observation (taint-style non-interference) over MIR; who-may-call; shared reader laws",
+        "Decides clause (ii) of the decomposition: every use of buf_len / buf / buf_ptr / is_at_end outside the reader has a sanctioned shape (fast/cold selector comparison, prefix slice up to a looked-at offset, use after the source was exhausted, end test after a look-ahead at offset 0); parser code calls no schedule-exposing reader method; Interrupted is retried inside request_more without touching state; position and mark are conserved by refills (C02 laws, re-run here). That the fast and cold implementations compute the same function is C13 / value-level; faithfulness of the window is C02.",
+        "DESIGN.md §4 C01",
+    ),
     "C02": (
         "other",
         "affine symbolic path execution over MIR (Karr-style linear equalities, no solver), guard dominance, field-store inventory",
